@@ -1,13 +1,15 @@
 import TinsModel.RadioTap.LemmasMap
-/- Helper lemmas for C11, part 6: getters, present(), trailer_size() on a canonical payload. -/
+/- Helper lemmas for C11, part 6: getters, present(), trailer_size() on a well-aligned header. -/
 namespace Tins.RT
 
-theorem skipToField_found {M : Meta} (hwf : M.wf) {fs : List (Nat × Bytes)} (hso : Sorted fs) (hsz : Sized M fs)
+/-- a field of the first present word is found, whatever follows the first word's fields -/
+theorem skipToField_found {M : Meta} (hwf : M.wf) {F : Frame} (hF : F.ok M)
+    {fs : List (Nat × Bytes)} (hso : Sorted fs) (hsz : Sized M fs)
     (bit : Nat) (v : Bytes) (hi : List (Nat × Bytes)) :
     ∀ (lo done : List (Nat × Bytes)) (p : Parser) (fuel : Nat),
-      fs = done ++ (lo ++ (bit, v) :: hi) → (∀ f ∈ lo, f.1 < bit) → PAt M fs done (lo ++ (bit, v) :: hi) p →
+      fs = done ++ (lo ++ (bit, v) :: hi) → (∀ f ∈ lo, f.1 < bit) → PAt M F fs done (lo ++ (bit, v) :: hi) p →
       fuel > lo.length →
-      skipToField M fuel p bit = (stAt M fs (done ++ lo) bit, true) := by
+      skipToField M fuel p bit = (stAt M F fs (done ++ lo) bit, true) := by
   intro lo
   induction lo with
   | nil =>
@@ -17,8 +19,8 @@ theorem skipToField_found {M : Meta} (hwf : M.wf) {fs : List (Nat × Bytes)} (hs
     | succ f =>
       simp only [List.nil_append, List.append_nil, PAt] at hfs hp ⊢
       subst hp
-      have hh := hasFields_stAt hwf hfs hsz
-      have hbit : (stAt M fs done bit).bit = bit := rfl
+      have hh := hasFields_stAt hwf F hfs hsz
+      have hbit : (stAt M F fs done bit).bit = bit := rfl
       simp [skipToField, hh, hbit]
   | cons x lo' ih =>
     obtain ⟨b1, v1⟩ := x
@@ -28,23 +30,24 @@ theorem skipToField_found {M : Meta} (hwf : M.wf) {fs : List (Nat × Bytes)} (hs
     | succ f =>
       simp only [List.cons_append, PAt] at hfs hp
       subst hp
-      have hh := hasFields_stAt hwf hfs hsz
+      have hh := hasFields_stAt hwf F hfs hsz
       have hlt : b1 < bit := by have := hlo (b1, v1) (List.mem_cons_self ..); simpa using this
-      have hbit : (stAt M fs done b1).bit = b1 := rfl
+      have hbit : (stAt M F fs done b1).bit = b1 := rfl
       have hne : (b1 != bit) = true := by simp; omega
-      have hstep := advanceField_step hwf hfs hso hsz
+      have hstep := advanceField_step hwf hF hfs hso hsz (fun h => by simp at h)
       have hfs2 : fs = (done ++ [(b1, v1)]) ++ (lo' ++ (bit, v) :: hi) := by rw [hfs]; simp
-      have hres := ih (done ++ [(b1, v1)]) (advanceField M (stAt M fs done b1)).1 f hfs2
+      have hres := ih (done ++ [(b1, v1)]) (advanceField M (stAt M F fs done b1)).1 f hfs2
         (fun g hg => hlo g (List.mem_cons_of_mem _ hg)) hstep (by simp at hf; omega)
       unfold skipToField
       simp only [hh, hbit, hne, Bool.and_self, if_true]
       rw [hres]
       simp
 
-theorem skipToField_absent {M : Meta} (hwf : M.wf) {fs : List (Nat × Bytes)} (hso : Sorted fs) (hsz : Sized M fs)
-    (bit : Nat) :
+/-- a field the first present word does not have is not found when the last present word announces no table field -/
+theorem skipToField_absent {M : Meta} (hwf : M.wf) {F : Frame} (hF : F.ok M) (hin : F.inert M)
+    {fs : List (Nat × Bytes)} (hso : Sorted fs) (hsz : Sized M fs) (bit : Nat) :
     ∀ (rest done : List (Nat × Bytes)) (p : Parser) (fuel : Nat),
-      fs = done ++ rest → (∀ f ∈ rest, f.1 ≠ bit) → PAt M fs done rest p → fuel > rest.length →
+      fs = done ++ rest → (∀ f ∈ rest, f.1 ≠ bit) → PAt M F fs done rest p → fuel > rest.length →
       (skipToField M fuel p bit).2 = false := by
   intro rest
   induction rest with
@@ -62,74 +65,107 @@ theorem skipToField_absent {M : Meta} (hwf : M.wf) {fs : List (Nat × Bytes)} (h
     | succ f =>
       simp only [PAt] at hp
       subst hp
-      have hh := hasFields_stAt hwf hfs hsz
-      have hbit : (stAt M fs done b1).bit = b1 := rfl
+      have hh := hasFields_stAt hwf F hfs hsz
+      have hbit : (stAt M F fs done b1).bit = b1 := rfl
       have hne1 : (b1 != bit) = true := by
         have := hne (b1, v1) (List.mem_cons_self ..); simpa using this
-      have hstep := advanceField_step hwf hfs hso hsz
+      have hstep := advanceField_step hwf hF hfs hso hsz (fun _ => hin)
       have hfs2 : fs = (done ++ [(b1, v1)]) ++ rest' := by rw [hfs]; simp
-      have hres := ih (done ++ [(b1, v1)]) (advanceField M (stAt M fs done b1)).1 f hfs2
+      have hres := ih (done ++ [(b1, v1)]) (advanceField M (stAt M F fs done b1)).1 f hfs2
         (fun g hg => hne g (List.mem_cons_of_mem _ hg)) hstep (by simp at hf; omega)
       unfold skipToField
       simp only [hh, hbit, hne1, Bool.and_self, if_true]
       exact hres
 
 /-- the option the parser is positioned on is the value stored for that field -/
-theorem currentOption_stAt {M : Meta} (lo hi : List (Nat × Bytes)) (bit : Nat) (v : Bytes) (hv : v.length = M.size bit) :
-    currentOption M (stAt M (lo ++ (bit, v) :: hi) lo bit) = .ok v := by
-  have hsplit := canonL_split M lo hi bit v
-  have hplen := canonL_split_len M lo bit (presentWord (lo ++ (bit, v) :: hi))
+theorem currentOption_stAt {M : Meta} (F : Frame) (lo hi : List (Nat × Bytes)) (bit : Nat) (v : Bytes) (hv : v.length = M.size bit) :
+    currentOption M (stAt M F (lo ++ (bit, v) :: hi) lo bit) = .ok v := by
+  have hsplit := layL_split M F lo hi bit v
+  have hplen := layL_split_len M F lo bit (presentWord (lo ++ (bit, v) :: hi) ||| F.hb)
   unfold currentOption
-  have hptr : (stAt M (lo ++ (bit, v) :: hi) lo bit).ptr = encEnd M lo 8 + padTo (M.align bit) (encEnd M lo 8) - 4 := rfl
-  have hbuf : (stAt M (lo ++ (bit, v) :: hi) lo bit).buf = canonL M (lo ++ (bit, v) :: hi) := rfl
-  have hbit : (stAt M (lo ++ (bit, v) :: hi) lo bit).bit = bit := rfl
+  have hptr : (stAt M F (lo ++ (bit, v) :: hi) lo bit).ptr
+      = encEnd M lo F.base + padTo (M.align bit) (encEnd M lo F.base) - 4 := rfl
+  have hbuf : (stAt M F (lo ++ (bit, v) :: hi) lo bit).buf = layL M F (lo ++ (bit, v) :: hi) := rfl
+  have hbit : (stAt M F (lo ++ (bit, v) :: hi) lo bit).bit = bit := rfl
   rw [hptr, hbuf, hbit, hsplit]
-  have hnot : ¬ (encEnd M lo 8 + padTo (M.align bit) (encEnd M lo 8) - 4 + M.size bit >
-      (le32 (presentWord (lo ++ (bit, v) :: hi)) ++ enc M lo 8 ++ zeros (padTo (M.align bit) (encEnd M lo 8)) ++
-        (v ++ enc M hi (encEnd M lo 8 + padTo (M.align bit) (encEnd M lo 8) + v.length))).length) := by
+  have hnot : ¬ (encEnd M lo F.base + padTo (M.align bit) (encEnd M lo F.base) - 4 + M.size bit >
+      (le32 (presentWord (lo ++ (bit, v) :: hi) ||| F.hb) ++ F.wsb ++ enc M lo F.base ++
+        zeros (padTo (M.align bit) (encEnd M lo F.base)) ++
+        (v ++ (enc M hi (encEnd M lo F.base + padTo (M.align bit) (encEnd M lo F.base) + v.length) ++ F.tail))).length) := by
     rw [List.length_append, hplen]
     simp only [List.length_append]
     omega
   simp only [hnot, if_false]
   rw [List.drop_left' hplen, ← hv, List.take_left]
 
-/-- `do_find_option` on the canonical payload of a map: the stored value, or `field_not_present` -/
+theorem fieldsFrom_lo_lt {m : FMap} {b : Nat} : ∀ f ∈ fieldsFrom m b 0, f.1 < b := fun f hf => by
+  have := fieldsFrom_mem hf; omega
+
+/-- a field the map has is found on the field list of the map -/
+theorem skipToField_map_found {M : Meta} (hwf : M.wf) {F : Frame} (hF : F.ok M) {m : FMap} (hm : sized M m)
+    (b : Nat) (v : Bytes) (hmb : m b = some v) {p0 : Parser} (hpat0 : PAt M F (fieldList M m) [] (fieldList M m) p0) :
+    fieldList M m = fieldsFrom m b 0 ++ (b, v) :: fieldsFrom m (M.max - b - 1) (b + 1) ∧
+    skipToField M (loopFuel M (layL M F (fieldList M m))) p0 b
+      = (stAt M F (fieldList M m) (fieldsFrom m b 0) b, true) := by
+  have hso := fieldList_sorted M m
+  have hsz := fieldList_sized hm
+  obtain ⟨hb, hv⟩ := hm b v hmb
+  have hsplit := fieldList_split M m b hb
+  simp only [optL, hmb, List.singleton_append] at hsplit
+  refine ⟨hsplit, ?_⟩
+  have hfound := skipToField_found hwf hF hso hsz b v (fieldsFrom m (M.max - b - 1) (b + 1)) (fieldsFrom m b 0) [] p0
+    (loopFuel M (layL M F (fieldList M m))) (by simpa using hsplit) fieldsFrom_lo_lt (by rw [← hsplit]; exact hpat0)
+    (by
+      have hs1 : Sorted (fieldsFrom m b 0) := fieldsFrom_sorted m _ _
+      have hz1 : Sized M (fieldsFrom m b 0) := by
+        intro f hf; apply hsz f; rw [hsplit]; exact List.mem_append_left _ hf
+      exact length_lt_loopFuel hs1 hz1 _)
+  simpa using hfound
+
+theorem skipToField_map_absent {M : Meta} (hwf : M.wf) {F : Frame} (hF : F.ok M) (hin : F.inert M) {m : FMap} (hm : sized M m)
+    (b : Nat) (hmb : m b = none) {p0 : Parser} (hpat0 : PAt M F (fieldList M m) [] (fieldList M m) p0) :
+    (skipToField M (loopFuel M (layL M F (fieldList M m))) p0 b).2 = false := by
+  have hso := fieldList_sorted M m
+  have hsz := fieldList_sized hm
+  have hne : ∀ f ∈ fieldList M m, f.1 ≠ b := by
+    intro f hf hfb
+    have := (fieldsFrom_mem hf).2.2
+    rw [hfb, hmb] at this
+    cases this
+  exact skipToField_absent hwf hF hin hso hsz b (fieldList M m) [] p0 _ (by simp) hne hpat0 (length_lt_loopFuel hso hsz _)
+
+/-- `do_find_option` of a field the first present word has: the stored value, whatever follows the fields -/
+theorem doFindOption_layout_present {M : Meta} (hwf : M.wf) {F : Frame} (hF : F.ok M) {m : FMap} (hm : sized M m)
+    (b : Nat) (v : Bytes) (hmb : m b = some v) :
+    doFindOption M (layL M F (fieldList M m)) b = .ok v := by
+  obtain ⟨p0, hp0, hpat0, _, _⟩ := mk_layL hwf hF (fieldList_sorted M m) (fieldList_sized hm)
+  obtain ⟨hsplit, hfound⟩ := skipToField_map_found hwf hF hm b v hmb hpat0
+  unfold doFindOption
+  simp only [hp0, hfound, Bool.not_true, Bool.false_eq_true, if_false]
+  rw [hsplit]
+  exact currentOption_stAt F _ _ b v (hm b v hmb).2
+
+/-- `do_find_option` on the well-aligned header of a map: the stored value, or `field_not_present` -/
+theorem doFindOption_layout {M : Meta} (hwf : M.wf) {F : Frame} (hF : F.ok M) (hin : F.inert M) {m : FMap} (hm : sized M m) (b : Nat) :
+    doFindOption M (layL M F (fieldList M m)) b =
+      match m b with
+      | some v => .ok v
+      | none => .throw .fieldNotPresent := by
+  cases hmb : m b with
+  | some v => exact doFindOption_layout_present hwf hF hm b v hmb
+  | none =>
+    obtain ⟨p0, hp0, hpat0, _, _⟩ := mk_layL hwf hF (fieldList_sorted M m) (fieldList_sized hm)
+    have habs := skipToField_map_absent hwf hF hin hm b hmb hpat0
+    unfold doFindOption
+    simp [hp0, habs]
+
 theorem doFindOption_canonical {M : Meta} (hwf : M.wf) {m : FMap} (hm : sized M m) (b : Nat) :
     doFindOption M (canonical M m) b =
       match m b with
       | some v => .ok v
       | none => .throw .fieldNotPresent := by
-  have hso := fieldList_sorted M m
-  have hsz := fieldList_sized hm
-  obtain ⟨p0, hp0, hpat0, _, _⟩ := mk_canonL hwf hso hsz
-  unfold doFindOption canonical
-  simp only [hp0]
-  cases hmb : m b with
-  | some v =>
-    obtain ⟨hb, hv⟩ := hm b v hmb
-    have hsplit := fieldList_split M m b hb
-    simp only [optL, hmb, List.singleton_append] at hsplit
-    have hlo : ∀ f ∈ fieldsFrom m b 0, f.1 < b := fun f hf => by
-      have := fieldsFrom_mem hf; omega
-    have hfound := skipToField_found hwf hso hsz b v (fieldsFrom m (M.max - b - 1) (b + 1)) (fieldsFrom m b 0) [] p0
-      (loopFuel M (canonL M (fieldList M m))) (by simpa using hsplit) hlo (by rw [← hsplit]; exact hpat0)
-      (by
-        have hs1 : Sorted (fieldsFrom m b 0) := fieldsFrom_sorted m _ _
-        have hz1 : Sized M (fieldsFrom m b 0) := by
-          intro f hf; apply hsz f; rw [hsplit]; exact List.mem_append_left _ hf
-        exact length_lt_loopFuel hs1 hz1 _)
-    simp only [hfound, List.nil_append, Bool.not_true, Bool.false_eq_true, if_false]
-    rw [hsplit]
-    exact currentOption_stAt _ _ b v hv
-  | none =>
-    have hne : ∀ f ∈ fieldList M m, f.1 ≠ b := by
-      intro f hf hfb
-      have := (fieldsFrom_mem hf).2.2
-      rw [hfb, hmb] at this
-      cases this
-    have habs := skipToField_absent hwf hso hsz b (fieldList M m) [] p0 (loopFuel M (canonL M (fieldList M m)))
-      (by simp) hne hpat0 (length_lt_loopFuel hso hsz _)
-    simp [habs]
+  have := doFindOption_layout hwf (Frame.nil_ok M) (Frame.nil_inert M) hm b
+  simpa [layL_nil, canonical] using this
 
 /-- bit `c` of the present word of a map's field list is set iff the map has the field -/
 theorem testBit_present_map (M : Meta) (m : FMap) (c : Nat) (hc : c < M.max) :
@@ -155,63 +191,79 @@ theorem testBit_present_map (M : Meta) (m : FMap) (c : Nat) (hc : c < M.max) :
   unfold optL
   cases m c <;> simp
 
+/-- `present()` on a well-aligned header: the first present word, ORed with the last one when there are several -/
+theorem present_layout {M : Meta} (hwf : M.wf) {F : Frame} (hF : F.ok M) {fs : List (Nat × Bytes)} (hso : Sorted fs) (hsz : Sized M fs) :
+    present M (layL M F fs) = .ok ((presentWord fs ||| F.hb) ||| (if 0 < F.k then F.lastWord else 0)) := by
+  obtain ⟨p0, hp0, _, _, hbuf, hnull, hns⟩ := mk_layL hwf hF hso hsz
+  have hc := chain_layL hwf hF hsz
+  have hl4 : ¬ ((layL M F fs).length < 4) := by have := hc.inb; omega
+  have hwalk0 : nsWalk ((layL M F fs).length / 4 + 1) (layL M F fs) 0 = F.k :=
+    nsWalk_spec _ _ hc _ _ (Nat.zero_le _) (by have := hc.inb; omega)
+  have hwalkk : nsWalk ((layL M F fs).length / 4 + 1) (layL M F fs) F.k = F.k :=
+    nsWalk_spec _ _ hc _ _ (Nat.le_refl _) (by omega)
+  unfold present
+  simp only [hp0, hnull, Bool.false_eq_true, if_false]
+  by_cases hk : F.k = 0
+  · have hloop : ∀ fuel, presentLoop (fuel + 1) p0 0 = presentWord fs ||| F.hb := by
+      intro fuel
+      unfold presentLoop
+      simp [hbuf, hns, read32_layL0 hwf hF hsz, advanceToNextNamespace, hwalk0, hl4, hk]
+    rw [hloop]
+    simp [hk]
+  · have hkpos : 0 < F.k := by omega
+    have hne : (F.k != 0) = true := by simp [hk]
+    have hloop : ∀ fuel, presentLoop (fuel + 2) p0 0 = (presentWord fs ||| F.hb) ||| F.lastWord := by
+      intro fuel
+      unfold presentLoop
+      simp only [hbuf, hns, Nat.mul_zero, read32_layL0 hwf hF hsz, Nat.zero_or, hl4, if_false, advanceToNextNamespace, hwalk0,
+        hne, if_true]
+      unfold presentLoop
+      simp [read32_layL_last hF fs hkpos, hl4, advanceToNextNamespace, hwalkk]
+    have : (layL M F fs).length / 4 + 2 = ((layL M F fs).length / 4) + 2 := rfl
+    rw [hloop]
+    simp [hkpos]
+
 /-- `present()` on a canonical payload is the present word of the map -/
 theorem present_canonical {M : Meta} (hwf : M.wf) {m : FMap} (hm : sized M m) :
     present M (canonical M m) = .ok (presentWord (fieldList M m)) := by
-  have hso := fieldList_sorted M m
-  have hsz := fieldList_sized hm
-  obtain ⟨p0, hp0, _, _, hbuf, hnull, hns⟩ := mk_canonL hwf hso hsz
-  have hlen := canonL_length M (fieldList M m)
-  have h8 := le_encEnd M (fieldList M m) 8
-  unfold present canonical
-  simp only [hp0, hnull, Bool.false_eq_true, if_false]
-  have hloop : ∀ fuel, presentLoop (fuel + 1) p0 0 = presentWord (fieldList M m) := by
-    intro fuel
-    unfold presentLoop
-    have hw : nsWalk ((canonL M (fieldList M m)).length / 4 + 1) (canonL M (fieldList M m)) 0 = 0 := by
-      unfold nsWalk
-      simp [ext_canonL hwf hsz]
-    have hl4 : ¬ ((canonL M (fieldList M m)).length < 4) := by omega
-    simp [hbuf, hns, read32_canonL hwf hsz, advanceToNextNamespace, hw, hl4]
-  rw [hloop]
+  have := present_layout hwf (Frame.nil_ok M) (fieldList_sorted M m) (fieldList_sized hm)
+  rw [layL_nil] at this
+  simpa [canonical, Frame.nil, Frame.k] using this
+
+/-- `trailer_size()` of a header whose first present word has FLAGS: 4 iff the FCS bit is set (whatever follows) -/
+theorem trailerSize_layout_present {M : Meta} (hwf : M.wf) (hflags : M.size 1 = 1) {F : Frame} (hF : F.ok M)
+    {m : FMap} (hm : sized M m) (v : Bytes) (hmb : m 1 = some v) :
+    trailerSize M (layL M F (fieldList M m)) = .ok (if byteAt v 0 / 16 % 2 == 1 then 4 else 0) := by
+  obtain ⟨p0, hp0, hpat0, _, _⟩ := mk_layL hwf hF (fieldList_sorted M m) (fieldList_sized hm)
+  obtain ⟨hsplit, hfound⟩ := skipToField_map_found hwf hF hm 1 v hmb hpat0
+  obtain ⟨_, hv⟩ := hm 1 v hmb
+  unfold trailerSize
+  simp only [hp0, hfound, if_true]
+  rw [hsplit, currentOption_stAt F _ _ 1 v hv]
+  have : (v.length != 1) = false := by simp; omega
+  simp [this]
 
 /-- `trailer_size()`: 4 iff the FLAGS field is present with the FCS bit -/
+theorem trailerSize_layout {M : Meta} (hwf : M.wf) (hflags : M.size 1 = 1) {F : Frame} (hF : F.ok M) (hin : F.inert M)
+    {m : FMap} (hm : sized M m) :
+    trailerSize M (layL M F (fieldList M m)) =
+      .ok (match m 1 with
+           | some v => if byteAt v 0 / 16 % 2 == 1 then 4 else 0
+           | none => 0) := by
+  cases hmb : m 1 with
+  | some v => exact trailerSize_layout_present hwf hflags hF hm v hmb
+  | none =>
+    obtain ⟨p0, hp0, hpat0, _, _⟩ := mk_layL hwf hF (fieldList_sorted M m) (fieldList_sized hm)
+    have habs := skipToField_map_absent hwf hF hin hm 1 hmb hpat0
+    unfold trailerSize
+    simp [hp0, habs]
+
 theorem trailerSize_canonical {M : Meta} (hwf : M.wf) (hflags : M.size 1 = 1) {m : FMap} (hm : sized M m) :
     trailerSize M (canonical M m) =
       .ok (match m 1 with
            | some v => if byteAt v 0 / 16 % 2 == 1 then 4 else 0
            | none => 0) := by
-  have hso := fieldList_sorted M m
-  have hsz := fieldList_sized hm
-  obtain ⟨p0, hp0, hpat0, _, _⟩ := mk_canonL hwf hso hsz
-  unfold trailerSize canonical
-  simp only [hp0]
-  cases hmb : m 1 with
-  | some v =>
-    obtain ⟨hb, hv⟩ := hm 1 v hmb
-    have hsplit := fieldList_split M m 1 hb
-    simp only [optL, hmb, List.singleton_append] at hsplit
-    have hlo : ∀ f ∈ fieldsFrom m 1 0, f.1 < 1 := fun f hf => by
-      have := fieldsFrom_mem hf; omega
-    have hfound := skipToField_found hwf hso hsz 1 v (fieldsFrom m (M.max - 1 - 1) (1 + 1)) (fieldsFrom m 1 0) [] p0
-      (loopFuel M (canonL M (fieldList M m))) (by simpa using hsplit) hlo (by rw [← hsplit]; exact hpat0)
-      (by
-        have hs1 : Sorted (fieldsFrom m 1 0) := fieldsFrom_sorted m _ _
-        have hz1 : Sized M (fieldsFrom m 1 0) := by
-          intro f hf; apply hsz f; rw [hsplit]; exact List.mem_append_left _ hf
-        exact length_lt_loopFuel hs1 hz1 _)
-    simp only [hfound, List.nil_append, if_true]
-    rw [hsplit, currentOption_stAt _ _ 1 v hv]
-    have : (v.length != 1) = false := by simp; omega
-    simp [this]
-  | none =>
-    have hne : ∀ f ∈ fieldList M m, f.1 ≠ 1 := by
-      intro f hf hfb
-      have := (fieldsFrom_mem hf).2.2
-      rw [hfb, hmb] at this
-      cases this
-    have habs := skipToField_absent hwf hso hsz 1 (fieldList M m) [] p0 (loopFuel M (canonL M (fieldList M m)))
-      (by simp) hne hpat0 (length_lt_loopFuel hso hsz _)
-    simp [habs]
+  have := trailerSize_layout hwf hflags (Frame.nil_ok M) (Frame.nil_inert M) hm
+  simpa [layL_nil, canonical] using this
 
 end Tins.RT
